@@ -1137,3 +1137,51 @@ def _pkg_split_or_guards(srcs):
 
 VARIANTS.append(dict(id='PKG_S_demorgan', props=ALL + ['C05'], file='*', expect=[], kind='silent', where='', pkg_all_fn=_pkg_demorgan))
 VARIANTS.append(dict(id='PKG_S_split_or_guards', props=ALL + ['C05'], file='*', expect=[], kind='silent', where='', pkg_all_fn=_pkg_split_or_guards))
+
+
+# ---- package-wide: positional arguments of calls to uniquely named private functions written as keywords
+def _pkg_keyword_arguments(srcs):
+    import collections
+    trees = {fn: ast.parse(t) for fn, t in srcs.items() if not fn.endswith('luts.py')}
+    defs = collections.defaultdict(list)
+    for fn, t in trees.items():
+        for c in t.body:
+            if isinstance(c, ast.FunctionDef):
+                defs[c.name].append((None, c))
+            if isinstance(c, ast.ClassDef):
+                for k in c.body:
+                    if isinstance(k, ast.FunctionDef):
+                        defs[k.name].append((c.name, k))
+    n = 0
+    for fn, t in trees.items():
+        for x in ast.walk(t):
+            if isinstance(x, ast.Call) and not any(isinstance(a, ast.Starred) for a in x.args) and not any(k.arg is None for k in x.keywords):
+                name = x.func.attr if isinstance(x.func, ast.Attribute) else x.func.id if isinstance(x.func, ast.Name) else None
+                if not name or not name.startswith('_') or name.startswith('__') or len(defs.get(name, [])) != 1:
+                    continue
+                cls, f = defs[name][0]
+                if f.decorator_list or f.args.vararg or f.args.kwarg:
+                    continue
+                if cls and isinstance(x.func, ast.Attribute) and isinstance(x.func.value, ast.Name) and x.func.value.id[:1].isupper():
+                    continue
+                off = 1 if (cls and isinstance(x.func, ast.Attribute)) else 0
+                allp = [a.arg for a in f.args.posonlyargs] + [a.arg for a in f.args.args]
+                call_params = allp[off:]
+                keep = max(0, len(f.args.posonlyargs) - off)
+                if len(x.args) > len(call_params):
+                    continue
+                new_kw = [ast.keyword(arg=call_params[i], value=a) for i, a in enumerate(x.args[keep:], start=keep)]
+                if new_kw:
+                    x.args = x.args[:keep]
+                    x.keywords = new_kw + x.keywords
+                    n += 1
+    if not n:
+        return None
+    out = dict(srcs)
+    for fn, t in trees.items():
+        ast.fix_missing_locations(t)
+        out[fn] = ast.unparse(t) + '\n'
+    return out
+
+
+VARIANTS.append(dict(id='PKG_S_keyword_arguments', props=ALL + ['C05'], file='*', expect=[], kind='silent', where='', pkg_all_fn=_pkg_keyword_arguments))
